@@ -28,6 +28,7 @@ def main():
     tab = {}
     digests = {}
     attrs = {}
+    constants = {}
     for dp, _dn, fn in os.walk(os.path.join(root, 'xdoctest')):
         for f in fn:
             if not f.endswith('.py'):
@@ -47,8 +48,9 @@ def main():
             tab[rel] = sorted(names)
             digests[rel] = {q: loader.fn_digest(n) for q, n in loader.function_table(t).items()}
             attrs[rel] = loader.attr_signatures(t)
+            constants[rel] = loader.module_constants(t)
     out = os.path.join(os.path.dirname(os.path.dirname(os.path.abspath(__file__))), 'xdstat', 'known_functions.json')
-    json.dump({'functions': tab, 'digests': digests, 'attrs': attrs}, open(out, 'w'), indent=0, sort_keys=True)
+    json.dump({'functions': tab, 'digests': digests, 'attrs': attrs, 'constants': constants}, open(out, 'w'), indent=0, sort_keys=True)
     print('%d names in %d modules -> %s' % (sum(len(v) for v in tab.values()), len(tab), out))
 
 
